@@ -989,6 +989,8 @@ class BaseDAGExecution(Generic[P, RVDAG]):
     cached_nodes: List[ExecNode] = field(init=False, default_factory=list)
 
     profiles: Dict[Identifier, Profile] = field(init=False, default_factory=dict)
+    # the scheduler consumes the graph: a run that has been started can not be started again, even if it failed
+    _launched: bool = field(init=False, default=False, repr=False)
 
     def __post_init__(self) -> None:
         """Dynamic construction of attributes."""
@@ -1065,8 +1067,9 @@ class BaseDAGExecution(Generic[P, RVDAG]):
             pickle.dump(to_cache_results, f, protocol=pickle.HIGHEST_PROTOCOL, fix_imports=False)
 
     def _pre_call(self) -> None:
-        if self.executed:
+        if self.executed or self._launched:
             raise TawaziUsageError("DAGExecution object has already been executed.")
+        self._launched = True
 
         if self.from_cache:
             with open(self.from_cache, "rb") as f:
